@@ -273,7 +273,11 @@ pub fn gen_qp(t: &mut Tape, code: usize, ctx: &mut Ctx) -> Qp {
             if seen.insert(i) {
                 // names are arbitrary tokens; some contain fragments that look like (Fortran) number syntax
                 let k = t.choice(9);
-                let nm = match t.choice(11) {
+                let nm = match t.choice(14) {
+                    // names containing the characters that start a remark elsewhere (a name is read as written)
+                    11 => format!("x#{i}"),
+                    12 => format!("flow!{i}a"),
+                    13 => format!("rate{i}%"),
                     // names that START like a number (digit, sign, dot) and contain a d / D further on
                     6 => format!("{i}nd_stage{k}"),
                     7 => format!("{k}D_pos{i}"),
@@ -286,6 +290,9 @@ pub fn gen_qp(t: &mut Tape, code: usize, ctx: &mut Ctx) -> Qp {
                     3 => format!("s{i}E+{k}x"),
                     _ => format!("v{i}_{k}"),
                 };
+                if nm.contains(|c: char| c == '#' || c == '!' || c == '%') {
+                    ctx.label("name-with-a-remark-character");
+                }
                 if nm.starts_with(|c: char| c.is_ascii_digit() || c == '-' || c == '+' || c == '.') && nm.contains(|c: char| c == 'd' || c == 'D') {
                     ctx.label("name-starting-like-a-number-with-d-inside");
                 }
